@@ -33,7 +33,7 @@ func (e *Env) REntry() {
 				case "go/parser.ParseFile", "go/parser.ParseDir":
 					n++
 					mode := call.Args[len(call.Args)-1]
-					e.Run.Check("R-ENTRY", fmt.Sprintf("%s in %s forces ParseComments", fn.Name(), load.FuncName(fd)), e.Prog.Pos(call.Pos()), modeHasParseComments(info, mode),
+					e.Run.Check("R-ENTRY", fmt.Sprintf("%s in %s forces ParseComments", fn.Name(), load.FuncName(fd)), e.Prog.Pos(call.Pos()), modeHasParseCommentsAt(info, fd, call, mode),
 						"mode operand `"+types.ExprString(mode)+"` must be `… | parser.ParseComments` (comments would be dropped at the door)")
 				case "go/format.Node":
 					n++
@@ -96,6 +96,72 @@ func (e *Env) REntry() {
 	chain("FileRestorer", "Print", "Fprint")
 	chain("FileRestorer", "Fprint", "RestoreFile")
 	chain("FileRestorer", "RestoreFile", "updateImports", "restoreNode", "fileSize")
+}
+
+// modeHasParseCommentsAt: the mode operand has the ParseComments bit — written at the call, or
+// held in a variable whose last assignment among the function's top-level statements before the
+// call sets it (x |= …ParseComments, x = x | …, x := … | …) with no nested assignment since.
+func modeHasParseCommentsAt(info *types.Info, fd *ast.FuncDecl, call *ast.CallExpr, x ast.Expr) bool {
+	id, ok := ast.Unparen(x).(*ast.Ident)
+	if !ok {
+		return modeHasParseComments(info, x)
+	}
+	v, ok := info.Uses[id].(*types.Var)
+	if !ok {
+		return modeHasParseComments(info, x)
+	}
+	has := false
+	var hasExpr func(e ast.Expr) bool
+	hasExpr = func(e ast.Expr) bool {
+		switch t := ast.Unparen(e).(type) {
+		case *ast.Ident:
+			if info.Uses[t] == types.Object(v) {
+				return has
+			}
+		case *ast.BinaryExpr:
+			if t.Op == token.OR {
+				return hasExpr(t.X) || hasExpr(t.Y)
+			}
+			return false
+		}
+		return modeHasParseComments(info, e)
+	}
+	for _, st := range fd.Body.List {
+		if st.Pos() <= call.Pos() && call.End() <= st.End() {
+			// the statement of the call itself: `f, err := parser.ParseFile(..., x)`
+			break
+		}
+		if as, ok := st.(*ast.AssignStmt); ok && len(as.Lhs) == 1 && len(as.Rhs) == 1 {
+			if lid, ok := as.Lhs[0].(*ast.Ident); ok && (info.Uses[lid] == types.Object(v) || info.Defs[lid] == types.Object(v)) {
+				switch as.Tok {
+				case token.OR_ASSIGN:
+					has = has || hasExpr(as.Rhs[0])
+				case token.ASSIGN, token.DEFINE:
+					has = hasExpr(as.Rhs[0])
+				default:
+					has = false
+				}
+				continue
+			}
+		}
+		// any other write to the variable: unknown
+		ast.Inspect(st, func(n ast.Node) bool {
+			switch t := n.(type) {
+			case *ast.AssignStmt:
+				for _, l := range t.Lhs {
+					if lid, ok := l.(*ast.Ident); ok && (info.Uses[lid] == types.Object(v) || info.Defs[lid] == types.Object(v)) {
+						has = false
+					}
+				}
+			case *ast.UnaryExpr:
+				if aid, ok := t.X.(*ast.Ident); ok && t.Op == token.AND && info.Uses[aid] == types.Object(v) {
+					has = false
+				}
+			}
+			return true
+		})
+	}
+	return has
 }
 
 func modeHasParseComments(info *types.Info, x ast.Expr) bool {
